@@ -118,8 +118,8 @@ def op_misc(p):
         opts += [(p.get("ext_w", 2), st.tuples(st.just("ext"), st.integers(0, len(EXT_POOL) - 1)))]
     if p["at"]:
         opts += [(p.get("at_w", 2), st.tuples(st.just("at"),
-                           st.sampled_from(["off", "on", "disable", "enable", "off now", "on again",
-                                            "", "offline", "foo", " off", "disabled", "OFF"]),
+                           st.sampled_from(["off", "on", "disable", "enable", "off now", "on again", "off", "on",
+                                            "", "offline", "foo", " off", "disabled", "OFF", "lights off", "not on", "turn off now"]),
                            st.sampled_from(["ExcludeRegion"] * 5 + ["excluderegion", "Other"]),
                            st.booleans() if p["streaming"] else st.just(False)))]
     if p["reg_events"]:
@@ -144,6 +144,10 @@ def one_op(p, inner=False):
         parts = [(6, mv), (p.get("misc_w", 5), misc)]
         if p["arcs"]:
             parts += [(p["arcs"], op_arc())]
+        if p.get("offon") and not inner:
+            # exclusion switched off, a few ops, switched on again, then a single-axis move
+            parts += [(p["offon"], st.tuples(st.just("offon"), st.lists(one_op(p, True), min_size=1, max_size=4),
+                                             st.integers(0, 120), st.sampled_from([1, 2]), st.sampled_from(["off", "disable"])))]
         if p.get("stress"):
             parts += [(6, st.tuples(st.just("stress"),
                                     st.sampled_from(["roundoff", "roundoff", "tiny_e", "tiny_e", "huge_xy", "huger_xy", "tiny_xy", "inch_feed",
@@ -201,7 +205,7 @@ def config(draw, p):
             table.append({
                 "command": draw(st.sampled_from(["ExcludeRegion", "ExcludeRegion", "Other", "excluderegion"])),
                 "parameterPattern": draw(st.sampled_from([None, "^\\s*(enable|on)(\\s|$)", "^\\s*(disable|off)(\\s|$)",
-                                                         "^off", "on", "^$", "^\\s*o(n|ff)"])),
+                                                         "^off", "on", "^$", "^\\s*o(n|ff)", "off(\\s|$)", "on$"])),
                 "action": draw(st.sampled_from(["enable_exclusion", "disable_exclusion"])),
             })
         cfg["at"] = table
@@ -346,6 +350,15 @@ class Renderer(object):  # pylint: disable=too-many-instance-attributes
             if not words:
                 return
             self.g(g + words, precheck=True)
+        elif k == "offon":
+            _, inner, i, mask, word = o
+            self.op(("at", word, "ExcludeRegion", False))
+            for sub in inner:
+                self.op(sub)
+            self.op(("at", "on", "ExcludeRegion", False))
+            if not self.pr.abs:
+                self.g("G90")
+            self.op(("mv", "grid", 0, i, i, mask, None, 0, None, "G1"))
         elif k == "stress":
             self.stress(o)
         elif k == "visit":
